@@ -694,7 +694,7 @@ func replayC05(c *core.Ctx) int {
 
 // --- delivery mode "stress" -----------------------------------------------------------------
 
-const stressFor = 400 * time.Millisecond
+const stressFor = 700 * time.Millisecond
 
 // StressChild runs in a child process (vgossipval __c05stress <seed>, cases as a JSON list on
 // stdin): every case is validated by 8 goroutines at once while a feeder updates the node's
